@@ -296,7 +296,14 @@ LEAF_POOL = [("bind", "[a]"), ("bind", "[b_1]"), ("bind", "[NAME]"), ("int", "1"
              ("float", "0.25"), ("dq", '"s"'), ("dq", '"a b"'), ("sq", "'s'"), ("sq", "'x y'")]
 LEAF_POOL2 = LEAF_POOL + [("bq", "`2020-01-01`"), ("dq", '"it\'s"'), ("sq", "'say \"hi\"'"), ("int", "0"), ("float", "100.5"),
                           ("dq", '"(a)"'), ("dq", '"a)"'), ("sq", "'(b'"), ("sq", "'5" + '"' + "'"), ("dq", '"6' + "'" + '"'),
-                          ("dq", '"O' + "'" + 'Brien"')]
+                          ("dq", '"O' + "'" + 'Brien"'),
+                          # white space inside literals is content (runs of blanks, tabs, line breaks, Unicode separators)
+                          ("sq", "'New  York'"), ("dq", '"tab\there"'), ("dq", '"1 Main St\n  Springfield"'), ("sq", "'a \u2028 b'"),
+                          ("dq", '" lead and trail "'),
+                          # back-quoted (date / time) literals are opaque too: quotes and parentheses inside them are text
+                          ("bq", "`O'Brien`"), ("bq", "`2010-01-01 (UTC`"), ("bq", '`say "hi`'), ("bq", "`a)`"),
+                          # a string that looks like a colour
+                          ("dq", '"#ff0000"'), ("sq", "'#ABC'")]
 FUNCS = ["tostring", "round", "length", "upper", "area", "fromtext", "commify"]
 
 
